@@ -7,6 +7,9 @@ ENGINES = [
 ]
 
 PHASES = {
+    "C06": [
+        {"pkg": "e1", "test": "TestC06Pool", "phase": "C06/allocator-states"},
+    ],
     "C19": [
         {"pkg": "e1", "test": "TestC19Topics", "phase": "C19/topics-store"},
         {"pkg": "e1", "test": "TestC19Subs", "phase": "C19/subscription-index"},
@@ -14,6 +17,12 @@ PHASES = {
 }
 
 META = {
+    "C06": {
+        "engine": "E1-seqx",
+        "technique": "explicit-state BFS to fixpoint over the real allocator vs a set model, plus bounded sequences at the production-range edges",
+        "text": "All reachable allocator states for several small ranges (BFS to fixpoint; state = every allocator field + reference outstanding set) under Get/Put of every in-range, boundary and out-of-range value, with a full drain in every state; on the production range 0..65535 every Get/Put sequence of depth 3 (quick) / 4 (thorough) from the states fresh, 65534, 65535 and all identifiers outstanding.",
+        "note": "The allocator is assumed to behave uniformly in the numeric values between the chosen small ranges and the production range edges; concurrent use is covered by C20.",
+    },
     "C19": {
         "engine": "E1-seqx",
         "technique": "explicit-state BFS to fixpoint over the real tries vs a map reference model",
